@@ -2,7 +2,7 @@ from pyvc.api import Registry
 
 
 def build_registry():
-    from . import sort_c, conversion_c, view_c, gfa_c, index_c, order_c, phase_c, stat_c, gaf_c
+    from . import sort_c, conversion_c, view_c, gfa_c, index_c, order_c, phase_c, stat_c, gaf_c, realign_c
     reg = Registry()
     sort_c.register(reg)
     conversion_c.register(reg)
@@ -18,4 +18,5 @@ def build_registry():
     stat_c.register(reg)
     gaf_c.register(reg)
     gaf_c.register_printer(reg)
+    realign_c.register(reg)
     return reg
